@@ -45,7 +45,7 @@ from typing import Any, NewType, NoReturn, cast
 import iso8601
 
 from kopf._cogs.aiokits import aiotasks, aiotime, aiotoggles
-from kopf._cogs.clients import patching
+from kopf._cogs.clients import errors, patching
 from kopf._cogs.configs import configuration
 from kopf._cogs.helpers import hostnames
 from kopf._cogs.structs import bodies, patches, references
@@ -132,7 +132,8 @@ async def process_peering_event(
     same_peers = [peer for peer in live_peers if peer.priority == settings.peering.priority]
 
     if autoclean and dead_peers:
-        await clean(peers=dead_peers, settings=settings, resource=resource, namespace=namespace)
+        await clean(peers=dead_peers, settings=settings, resource=resource, namespace=namespace,
+                    resource_version=meta.get('resourceVersion'))
 
     if conflicts_found is None:
         pass
@@ -249,19 +250,30 @@ async def clean(
         settings: configuration.OperatorSettings,
         resource: references.Resource,
         namespace: references.Namespace,
+        resource_version: str | None = None,
 ) -> None:
     name = settings.peering.name
     patch = patches.Patch()
     patch |= {'status': {peer.identity: None for peer in peers}}
-    await patching.patch_obj(
-        settings=settings,
-        resource=resource,
-        namespace=namespace,
-        name=name,
-        patch=patch,
-        logger=logger,
-        silent=True,
-    )
+
+    # The peers were judged dead by the version of the peering object that we have seen. If it has
+    # changed since then (e.g. a "dead" peer has just renewed its record, or has been restarted under
+    # the same identity), do not remove by identity whatever is stored there now: let the API refuse
+    # the patch (409), and re-evaluate the peers on the next event, which is already on its way.
+    if resource_version is not None:
+        patch |= {'metadata': {'resourceVersion': resource_version}}
+    try:
+        await patching.patch_obj(
+            settings=settings,
+            resource=resource,
+            namespace=namespace,
+            name=name,
+            patch=patch,
+            logger=logger,
+            silent=True,
+        )
+    except errors.APIConflictError:
+        logger.debug(f"Peering {name!r} has changed since the peers were evaluated; not cleaning now.")
 
 
 def detect_own_id(*, manual: bool) -> Identity:
